@@ -7,31 +7,36 @@ package keygen
 // what was handed to EncryptKey (the minted key) relative to what DecryptKey / Authorize returned (the parent).
 
 import (
+	"time"
+
 	"github.com/emitter-io/emitter/internal/errors"
 	"github.com/emitter-io/emitter/internal/provider/contract"
 	"github.com/emitter-io/emitter/internal/security"
+	"github.com/emitter-io/emitter/internal/service"
 	vs "github.com/emitter-io/emitter/internal/verifspec"
 )
 
 // assumed interface contracts: a cipher that decrypts without error returns a 24-byte key (proved for Xtea under
 // C20); an authorizer that allows returns the 24-byte key it decrypted
-//@ assume (github.com/emitter-io/emitter/internal/security/license.Cipher).DecryptKey iface post=post_Cipher_DecryptKey
-func post_Cipher_DecryptKey(res0 security.Key, res1 error) bool { return res1 != nil || len(res0) == 24 }
+// @ assume (github.com/emitter-io/emitter/internal/security/license.Cipher).DecryptKey iface post=post_Cipher_DecryptKey
+func post_Cipher_DecryptKey(res0 security.Key, res1 error) bool {
+	return res1 != nil || len(res0) == 24
+}
 
-//@ assume (github.com/emitter-io/emitter/internal/service.Authorizer).Authorize iface post=post_Authorizer_Authorize
+// @ assume (github.com/emitter-io/emitter/internal/service.Authorizer).Authorize iface post=post_Authorizer_Authorize
 func post_Authorizer_Authorize(res1 security.Key, res2 bool) bool { return !res2 || len(res1) == 24 }
 
 // channel parsing is under contract elsewhere (security.ParseChannel); here only: MakeChannel returns a channel object
-//@ assume github.com/emitter-io/emitter/internal/security.MakeChannel post=post_MakeChannel fresh
+// @ assume github.com/emitter-io/emitter/internal/security.MakeChannel post=post_MakeChannel fresh
 func post_MakeChannel(res0 *security.Channel) bool { return res0 != nil }
 
 // a provider that reports a contract as found returns it
-//@ assume (github.com/emitter-io/emitter/internal/provider/contract.Provider).Get iface post=post_Provider_Get
+// @ assume (github.com/emitter-io/emitter/internal/provider/contract.Provider).Get iface post=post_Provider_Get
 func post_Provider_Get(res0 contract.Contract, res1 bool) bool { return !res1 || res0 != nil }
 
 // the permission mask of a request is the union of its letters and never contains the master bit
-//@ verify (*Request).access pre=pre_Request post=post_access props=C11
-//@ loop (*Request).access 0 inv inv_access
+// @ verify (*Request).access pre=pre_Request post=post_access props=C11
+// @ loop (*Request).access 0 inv inv_access
 func pre_Request(m *Request) bool { return m != nil }
 func inv_access(i int, m *Request, required uint8) bool {
 	return 0 <= i && i <= len(m.Type) && required&security.AllowMaster == 0
@@ -52,14 +57,17 @@ func specInherits(k, parent []byte) bool {
 // CreateKey: only a decryptable master key whose contract is found and validates mints; the minted key inherits
 // master id, contract and signature, carries exactly the requested permissions minus the master bit; a failure
 // mints nothing.
-//@ verify (*Service).CreateKey pre=pre_Service post=post_CreateKey_fail,post_CreateKey_unexpired,post_CreateKey_master,post_CreateKey_contract,post_CreateKey_inherit,post_CreateKey_perms props=C11
-func pre_Service(s *Service) bool { return s != nil && s.cipher != nil && s.loader != nil && s.auth != nil }
+// @ verify (*Service).CreateKey pre=pre_Service post=post_CreateKey_fail,post_CreateKey_unexpired,post_CreateKey_master,post_CreateKey_contract,post_CreateKey_inherit,post_CreateKey_perms props=C11
+func pre_Service(s *Service) bool {
+	return s != nil && s.cipher != nil && s.loader != nil && s.auth != nil
+}
 func post_CreateKey_fail(s *Service, res0 string, res1 *errors.Error) bool {
 	return res1 == nil || (res0 == "" && (vs.TraceCount("EncryptKey") == 0 || res1 == errors.ErrServerError))
 }
 func specMinted(res1 *errors.Error) bool { // exactly one key was handed to the cipher
 	return vs.TraceFind("DecryptKey") >= 0 && vs.TraceFind("EncryptKey") >= 0 && vs.TraceCount("EncryptKey") == 1
 }
+
 // specExpired: what Key.IsExpired computed for the parent, read off the recorded time comparisons (expiry is not
 // "never" and lies before now)
 func specExpired() bool {
@@ -94,7 +102,7 @@ func post_CreateKey_perms(s *Service, access uint8, res1 *errors.Error) bool {
 
 // ExtendKey: requires Authorize(channel, AllowExtend); the result has permissions parent & access & ^extend
 // (a subset of the parent, of the request, and never extendable again), same master id / contract / signature.
-//@ verify (*Service).ExtendKey pre=pre_Service post=post_ExtendKey props=C11
+// @ verify (*Service).ExtendKey pre=pre_Service post=post_ExtendKey props=C11
 func post_ExtendKey(s *Service, access uint8, res0 *security.Channel, res1 *errors.Error) bool {
 	if res1 != nil {
 		return res0 == nil
@@ -106,4 +114,76 @@ func post_ExtendKey(s *Service, access uint8, res0 *security.Channel, res1 *erro
 	k := vs.TraceBytes(e, 1)
 	return vs.TraceArg8(a, 2) == security.AllowExtend && vs.TraceRetBool(a, 2) && len(k) == 24 &&
 		k[15]&security.AllowExtend == 0 && k[15]&^access == 0
+}
+
+// ---------------------------------------------------------------------------------------------------------
+// The keygen request handler (C11: "only a valid, unexpired master key ... can mint keys"; extension only for keys
+// that carry the extend permission). The two minting functions have their own contracts above; here they are
+// recorded calls, and the contract fixes WHEN each is reached: an undecodable request, a key that does not
+// decrypt or an expired key reaches neither; a master key reaches CreateKey (and never ExtendKey); a non-master
+// key with the extend permission reaches ExtendKey with the REQUESTING connection's id; any other key reaches
+// neither; both get the request's own key text, channel, permission mask and expiry.
+//@ assume (*Service).CreateKey iface for=OnRequest
+//@ assume (*Service).ExtendKey iface for=OnRequest post=post_ExtendKey_assumed
+//@ assume (*Request).access iface for=OnRequest
+//@ assume (*Request).expires iface for=OnRequest
+
+// @ verify (*Service).OnRequest pre=pre_keygen_OnRequest post=post_keygen_gate,post_keygen_create,post_keygen_extend props=C11
+func post_ExtendKey_assumed(res0 *security.Channel, res1 *errors.Error) bool {
+	return res1 != nil || res0 != nil
+} // (its own contract, above)
+func pre_keygen_OnRequest(s *Service, c service.Conn) bool {
+	return s != nil && s.cipher != nil && c != nil
+}
+func specParent() security.Key {
+	return vs.TraceRet[security.Key](vs.TraceFind("Cipher).DecryptKey"), 0)
+}
+func specParentOK() bool {
+	d := vs.TraceFind("Cipher).DecryptKey")
+	return d >= 0 && vs.TraceRet[error](d, 1) == nil
+}
+func post_keygen_gate(s *Service, res0 service.Response, res1 bool) bool {
+	minted := vs.TraceCount("Service).CreateKey") + vs.TraceCount("Service).ExtendKey")
+	if minted == 0 {
+		return !res1
+	}
+	// something was minted: the parent decrypted, it is NOT expired (read off the recorded time comparisons of
+	// Key.IsExpired), and both were established before the minting call
+	d := vs.TraceFind("Cipher).DecryptKey")
+	m := vs.TraceFind("Service).CreateKey") + vs.TraceFind("Service).ExtendKey") + 1
+	return minted == 1 && specParentOK() && d < m && vs.TraceFind("Equal") >= 0 && vs.TraceFind("Equal") < m && !specExpired()
+}
+func post_keygen_create(s *Service, res0 service.Response, res1 bool) bool {
+	c := vs.TraceFind("Service).CreateKey")
+	if c < 0 {
+		return true
+	}
+	k := specParent()
+	a, x := vs.TraceFind("Request).access"), vs.TraceFind("Request).expires")
+	return k[15] == security.AllowMaster && vs.TraceCount("Service).ExtendKey") == 0 && a >= 0 && x >= 0 && a < c && x < c &&
+		vs.TraceArg[uint8](c, 3) == vs.TraceRet[uint8](a, 0) && vs.TraceArg[time.Time](c, 4) == vs.TraceRet[time.Time](x, 0)
+}
+func post_keygen_extend(s *Service, c service.Conn, res0 service.Response, res1 bool) bool {
+	e := vs.TraceFind("Service).ExtendKey")
+	if e < 0 {
+		return true
+	}
+	k := specParent()
+	a, x := vs.TraceFind("Request).access"), vs.TraceFind("Request).expires")
+	return k[15] != security.AllowMaster && k[15]&security.AllowExtend != 0 && vs.TraceCount("Service).CreateKey") == 0 &&
+		a >= 0 && x >= 0 && a < e && x < e && vs.TraceArg[string](e, 3) == c.ID() &&
+		vs.TraceArg[uint8](e, 4) == vs.TraceRet[uint8](a, 0) && vs.TraceArg[time.Time](e, 5) == vs.TraceRet[time.Time](x, 0)
+}
+
+// Request.expires: no ttl = never (the zero Unix time); otherwise now + ttl SECONDS
+// @ verify (*Request).expires pre=pre_Request post=post_Request_expires props=C11
+func post_Request_expires(m *Request, res0 time.Time) bool {
+	if m.TTL == 0 {
+		u := vs.TraceFind("time.Unix")
+		return u == 0 && vs.TraceLen() == 1 && vs.TraceArg[int64](u, 0) == 0 && vs.TraceArg[int64](u, 1) == 0 && res0 == vs.TraceRet[time.Time](u, 0)
+	}
+	n, a, u := vs.TraceFind("time.Now"), vs.TraceFind("Time).Add"), vs.TraceFind("Time).UTC")
+	return n == 0 && a == 1 && u == 2 && vs.TraceLen() == 3 && vs.TraceArg[time.Time](a, 0) == vs.TraceRet[time.Time](n, 0) &&
+		vs.TraceArg[time.Duration](a, 1) == time.Duration(m.TTL)*time.Second && vs.TraceArg[time.Time](u, 0) == vs.TraceRet[time.Time](a, 0) &&
+		res0 == vs.TraceRet[time.Time](u, 0)
 }
